@@ -924,7 +924,9 @@ func typeAssert(i *interpreter, instr *ssa.TypeAssert, itf iface) value {
 
 	if err != "" {
 		if !instr.CommaOk {
-			panic(err)
+			// a failed x.(T) is a Go run-time panic of the target program (runtime.TypeAssertionError),
+			// recoverable there and a PANIC finding when it escapes - not an engine failure
+			panic(symRuntimeError(err))
 		}
 		return tuple{zero(instr.AssertedType), false}
 	}
